@@ -87,6 +87,16 @@ def check(case):
                 return Result.inconclusive("invalid-objective-accepted", classes)
             except Exception:
                 classes.append("rejected-call:rejected")
+        shared_opts = None
+        if not case.get("kw") and len(desc) % 3 == 0:
+            # the caller keeps ONE options dict: an earlier, deliberately limited solve (maxiter=1) with it, then the judged
+            # solves pass the same dict again without a limit - they must be ordinary solves
+            shared_opts = {"presolve": True}
+            try:
+                P.solve(method=method, maxiter=1, options=shared_opts)
+                classes.append("earlier-limited-solve-with-shared-options-dict")
+            except Exception:
+                shared_opts = None
         rounds = ["first", "second"] + (["third"] if case.get("third") else [])
         for rnd in rounds:
             if rnd == "third" and case["third"] == "flip-same-object":
@@ -119,7 +129,7 @@ def check(case):
                 classes.append("edit:" + case["edit"])
             try:
                 with seams.linprog_capture() as cap:
-                    sol = P.solve(method=method, **(case.get("kw") or {}))
+                    sol = P.solve(method=method, **(case.get("kw") or ({"options": shared_opts} if shared_opts is not None else {})))
             except Exception as ex:
                 return Result.violation(f"solve-raises:{exc_label(ex)}", f"{desc} ({rnd}): {ex!r}", classes)
             if not cap.calls:
